@@ -42,9 +42,9 @@ def elementsO (cls : List (Nat × ClassO)) : List (String × Nat) :=
 
 /-! ### Per-set predicates (C14) -/
 
-def setPreds (now : Nat) (s : SetO) : List String :=
+def setPreds (now : Nat) (aged : Bool) (s : SetO) : List String :=
   (if s.crlSerial == toString s.number then [] else ["MftCrlNumbersAgree"]) ++
-  (if s.mftExpires == s.nextU && s.crlExpires == s.nextU then [] else ["MftCrlNumbersAgree"]) ++
+  (if aged || (s.mftExpires == s.nextU && s.crlExpires == s.nextU) then [] else ["MftCrlNumbersAgree"]) ++
   (if s.thisU ≤ now && now < s.nextU then [] else ["WindowContainsNow"])
 
 def revSerials (s : SetO) : List Nat := sortNats (s.revs.map (·.serial))
@@ -53,10 +53,10 @@ def pubSig (s : SetO) : List (Nat × Nat) :=
   (sortBy pubLt s.pub).map fun e => (e.1, e.2.serial)
 
 /-- Transition predicates for one key set seen before and after an op. -/
-def transPreds (t0 now : Nat) (p q : SetO) : List String :=
+def transPreds (t0 now : Nat) (ageOp : Bool) (p q : SetO) : List String :=
   (if q.number ≥ p.number then [] else ["NumbersStrictlyIncrease"]) ++
   (if q.number == p.number then
-    (if q.mftHash == p.mftHash && q.crlHash == p.crlHash && q.thisU == p.thisU && q.nextU == p.nextU then []
+    (if q.mftHash == p.mftHash && q.crlHash == p.crlHash && q.thisU == p.thisU && (ageOp || q.nextU == p.nextU) then []
       else ["NumbersStrictlyIncrease"]) ++
     (if pubSig q == pubSig p && revSerials q == revSerials p then [] else ["ChangeForcesReissue"])
   else
@@ -183,7 +183,7 @@ def sortS (l : List String) : List String := sortBy (fun (a b : String) => a < b
 
 /-- Decoded manifest and CRL of a key set whose files are on the server: the manifest lists the
 CRL and exactly the published objects, numbers agree, the CRL carries exactly the revocations. -/
-def rpSetPreds (rp : Json) (s : SetO) : List String :=
+def rpSetPreds (rp : Json) (aged : Bool) (s : SetO) : List String :=
   match rpEntry rp (dec s.base ++ dec s.mftName) with
   | none => []
   | some e =>
@@ -192,7 +192,7 @@ def rpSetPreds (rp : Json) (s : SetO) : List String :=
     let revoked := sortNats ((jarr (jget e "revoked")).map jtok)
     (if listed == want then [] else ["ManifestListsExactly"]) ++
     (if jstr (jget e "number") == toString s.number && jstr (jget e "crl_number") == toString s.number
-        && jnat (jget e "next_update") == s.nextU && jnat (jget e "crl_next_update") == s.nextU
+        && (aged || (jnat (jget e "next_update") == s.nextU && jnat (jget e "crl_next_update") == s.nextU))
         && jnat (jget e "this_update") == s.thisU && jnat (jget e "crl_this_update") == s.thisU
       then [] else ["MftCrlNumbersAgree"]) ++
     (if revoked == revSerials s then [] else ["CrlListsRevocations"])
@@ -272,12 +272,12 @@ def laggingCas (obs : Json) : List String :=
   l2 ++ kids l2
 
 def rpPreds (obs : Json) (objs : List (String × List (Nat × ClassO))) (synced : String → Bool)
-    (ignoredRevokes ignoredMissing : List String) : List String :=
+    (ignoredRevokes ignoredMissing : List String) (aged : String → Nat → Bool) : List String :=
   let rp := jget obs "rp"
   if jisNull rp then [] else
   -- decoded manifests/CRLs of every CA whose server content is its object set
   let p0 := objs.flatMap fun (h, cls) =>
-    if !(synced h) then [] else cls.flatMap fun (_, c) => c.sets.flatMap (rpSetPreds rp)
+    if !(synced h) then [] else cls.flatMap fun (_, c) => c.sets.flatMap fun s => rpSetPreds rp (aged h s.crlName) s
   -- a repository sync that was put back ("premature", retried a second later) is still outstanding
   let syncOutstanding := (handlesOf obs "server").any fun h => syncPending obs h
   if !((jbool? (jget rp "quiescent")).getD false) || syncOutstanding then p0 else
